@@ -37,6 +37,16 @@ CHECKS = {
          "Same recorded program under different read/write fragmentation must give identical results, deliveries and outbound bytes.", "DESIGN.md 3/C15"),
  "C16": ck("fault_enumeration", "bounded-progress monitor over a benign continuation appended to every explored end state; per-call I/O watchdog",
          "Liveness restated as: idle, quiescent and complete within N polls under a responsive broker; the unbounded 'eventually' is not decided.", "DESIGN.md 3/C16"),
+ "C08": ck("exploration", "three-valued reference classifier (MustAccept/MustReject/DontCare) over exhaustive short byte strings, all fixed-header forms and mutated valid packets fed to the real client; panics caught; Miri shard in the thorough tier",
+         "All byte strings up to 2 (quick) / 3 (thorough) bytes in both contexts exhaustively, every first byte x 9 remaining-length encodings, valid packets of all ten server types with random property sets and 13 mutation operators, random read chunkings; 16 Miri shards re-run a slice of the generative workload for UB inside dependencies.", "DESIGN.md 3/C08"),
+ "C10": ck("exploration", "virtual-time trace monitor (thread-local embassy-time driver): packet completion instants, PINGREQ/PINGRESP instants and wait results against the effective keep-alive",
+         "Keep-alive x Server Keep Alive grid with events placed at deadline-1/0/+1 tick; exact-instant oracles for timeout, gap and cadence.", "DESIGN.md 3/C10"),
+ "C17": ck("exploration", "arena snapshot invariants after every step + byte comparison of every retransmission + probe-battery twin (aged vs brand-new session); Miri shard in the thorough tier",
+         "Integrity: arena copy of each retained entry equals its first transmission after every step; leak: deterministic probe battery gives identical transcripts on an aged, drained session and on a new one.", "DESIGN.md 3/C17"),
+ "C19": ck("exploration", "exhaustive cell enumeration (27 property kinds x 5 contexts x value variants x 3 session states, QoS cap grid) against a reference table written from the MQTT 5 text",
+         "Every cell is executed on the real client; Reject cells are checked for the documented error and for no trace, Accept cells for success and presence on the wire.", "DESIGN.md 3/C19 + appendix A"),
+ "C20": ck("exploration", "request/reply differential: reply()/reply_owned() publication decoded by the independent codec and compared with the inbound request's response target",
+         "Response topics / correlation data of 0..65535 bytes at random positions, owned capacities around the actual sizes from a fixed const-generic menu.", "DESIGN.md 3/C20"),
  "C18": ck("exploration", "reference model of handle status compared with is_pending/is_complete/is_invalidated after every step",
          "Status of every handle is queried after every step of every history and compared with a model driven by consumed acks and fresh-session CONNACKs.", "DESIGN.md 3/C18"),
 }
